@@ -174,8 +174,13 @@ def gen(s: Choices, cls, cfg):
             sc["series"] = bool(s.draw(2))
     sc["workers"] = s.weighted([(5, None), (2, 1), (2, 2), (1, 3)])
     if cfg.get("fault_mode") and kind in ("1d", "2d", "real"):
-        kindf = s.weighted([(3, "task_fail_before"), (3, "task_fail_after"), (2, "spawn_fail"), (2, "consumer_interrupt")])
+        kindf = s.weighted([(3, "task_fail_before"), (3, "task_fail_after"), (2, "spawn_fail"), (2, "consumer_interrupt"), (2, "stmt_fail"), (2, "stmt_interrupt")])
         sc["fault"] = {"kind": kindf, "k": s.draw(4)}
+        if kindf.startswith("stmt_") and kind != "real":
+            # crash / interrupt before a drawn Python line of the library (position scaled by a traced dry run)
+            sc["fault"].update(pos=s.draw(1000), mode=s.draw(2))
+        elif kindf.startswith("stmt_"):
+            sc["fault"]["kind"] = "task_fail_before"
     else:
         sc["fault"] = None
     return sc
@@ -337,9 +342,20 @@ def execute(sc, sched: Choices, cls, cfg):
         import pandas as pd
 
         arg = pd.Series(arr, index=np.arange(arr.size) * 3 + 7, copy=False)
+    if sc["fault"] and sc["fault"]["kind"].startswith("stmt_"):
+        from . import gen as _gen
+
+        dry = executor.LineTracer(None, mode=sc["fault"].get("mode", 0))
+        with executor.use_context(executor.SimContext(sched=sched, workers=sc["workers"], cpu_count=sc["cpu"])):
+            with dry:
+                _outcome(lambda: _call(func, arg, sc["n_threads"], ddof, axis))
+        ctx.fault = _gen.arm_stmt_fault(sc["fault"], dry.count)
+        rec["probes"].append("stmt_fault_armed")
     with executor.use_context(ctx):
         got = _outcome(lambda: _call(func, arg, sc["n_threads"], ddof, axis))
     fired = ctx.fault_fired
+    if ctx.fault_where:
+        rec["fault_sites"] = [ctx.fault_where]
     features["fault"] = fired or "none"
     if before is not None and not np.array_equal(before, arr, equal_nan=True):
         add("input_unchanged", "input_mutated", "input array unchanged", "changed")
